@@ -212,11 +212,11 @@ func (e *FEnc) typeFacts(t string, ty types.Type, depth int) {
 				e.fact(fmt.Sprintf("(and (<= %s %s) (<= %s %s))", lo, t, t, hi))
 			}
 		} else if u.Info()&types.IsString != 0 {
-			e.fact(fmt.Sprintf("(and (>= (len_s %s) 0) (<= (len_s %s) 9223372036854775807))", t, t))
+			e.fact(fmt.Sprintf("(and (>= (len_s %s) 0) (<= (len_s %s) 1099511627776))", t, t)) // memLenBound
 			e.fact(fmt.Sprintf("(= (= (len_s %s) 0) (= %s %s))", t, t, e.d.strLit("")))
 		}
 	case *types.Slice:
-		e.fact(fmt.Sprintf("(and (>= (sl_off %s) 0) (>= (sl_len %s) 0) (<= (sl_len %s) (sl_cap %s)) (<= (+ (sl_off %s) (sl_cap %s)) 9223372036854775807) (=> (= (sl_base %s) nil_ref) (= (sl_cap %s) 0)))", t, t, t, t, t, t, t, t))
+		e.fact(fmt.Sprintf("(and (>= (sl_off %s) 0) (>= (sl_len %s) 0) (<= (sl_len %s) (sl_cap %s)) (<= (+ (sl_off %s) (sl_cap %s)) 1099511627776) (=> (= (sl_base %s) nil_ref) (= (sl_cap %s) 0)))", t, t, t, t, t, t, t, t))
 	case *types.Struct:
 		sn := e.sortOf(ty)
 		for i := 0; i < u.NumFields(); i++ {
